@@ -375,7 +375,8 @@ def gen_leaf(rng, kinds, o):
             lo, hi = (t_, t_ + rng.randint(66, 80)) if rng.random() < 0.5 else (t_ - rng.randint(66, 80), t_)
             item, cont = ["v", vi, pp + [["a", "k1000"]]], ["big", lo, hi]
         elif kk < 0.55:
-            item, cont = gen_num(rng, kinds, o), ["v", vi, pp + [["a", "t"]]]
+            # (a third of them in one of the two LONG collections of the owner: 22 / 24 numbers)
+            item, cont = gen_num(rng, kinds, o), ["v", vi, pp + [["a", rng.choice(["t", "t", "t", "t", "t20", "u20"]) if o.get("long_containers", True) else "t"]]]
         elif kk < 0.75:
             item, cont = gen_num(rng, kinds, o, allow_lit=False), ["tup", sorted(rng.sample([0, 1, 2, 3, 4], rng.randint(1, 3)))]
         elif o["strings"]:
